@@ -324,6 +324,9 @@ buildexe(struct input *inputs, size_t ninputs, char *output)
 	if (!flags.nostdlib && startfiles[0])
 		arrayaddbuf(&s->cmd, startfiles, sizeof(startfiles));
 	for (i = 0; i < ninputs; ++i) {
+		/* inputs that were ignored are not linked either */
+		if (!inputs[i].name)
+			continue;
 		if (inputs[i].lib)
 			arrayaddptr(&s->cmd, "-l");
 		arrayaddptr(&s->cmd, inputs[i].name);
@@ -592,8 +595,10 @@ main(int argc, char *argv[])
 	}
 	arrayforeach (&inputs, input) {
 		/* ignore the input if it doesn't participate in the last stage */
-		if (!(input->stages & 1 << last))
+		if (!(input->stages & 1 << last)) {
+			input->name = NULL;
 			continue;
+		}
 		/* only run up through the last stage */
 		input->stages &= (1 << last + 1) - 1;
 		buildobj(input, output);
